@@ -104,7 +104,7 @@ def coq_eval(cases):
         t = c.split(" ")
         if t[0] == "tostr":
             byfn.setdefault(t[1], []).append(int(t[3]) * (-1 if t[2] == "m" else 1))
-        elif t[0] == "tostring" and t[1] in wrappers and t[2] == "p":
+        elif t[0] == "tostring" and (t[1] in wrappers or t[1] == "p_flags_to_string") and t[2] == "p":
             bysfn.setdefault(t[1], []).append(int(t[3]))
     d = os.path.join(vlib.BUILD, "c19")
     os.makedirs(d, exist_ok=True)
@@ -123,6 +123,11 @@ def coq_eval(cases):
     # the *_to_string wrappers: sem_r on the resolved arms (= to_str_sem, lemma sem_r_resolve), else prefix(0x<hex>)
     v.append('Definition ts (r : list (option Z * string)) (px : string) (x : Z) : string := match sem_r r x with Some s => s | None => (px ++ "(" ++ hex0xl (Z.to_N x) ++ ")")%string end.')
     for fn in sorted(bysfn):
+        if fn == "p_flags_to_string":        # hand-written reading (Spec/AbiTables.p_flags_string, theorem C19_p_flags)
+            for k in range(0, len(bysfn[fn]), CH):
+                v.append('Goal True. idtac "===SFN %s %d". Abort.' % (fn, k))
+                v.append('Eval vm_compute in (map (p_flags_string abi_consts) [%s]).' % "; ".join("(%d)" % x for x in bysfn[fn][k:k + CH]))
+            continue
         inner, px = wrappers[fn]
         for k in range(0, len(bysfn[fn]), CH):
             v.append('Goal True. idtac "===SFN %s %d". Abort.' % (fn, k))
@@ -244,6 +249,8 @@ def oracle(case, impl, model):
         return None
     if t[0] == "tostring" and t[1] == "p_flags_to_string" and impl.startswith("x"):
         text = bytes.fromhex(impl[1:]).decode("utf-8", "replace")
+        if model not in ("-", impl):       # Spec/AbiTables.p_flags_string (theorem C19_p_flags) evaluated on the same value
+            _tie.append("p_flags_to_string(%d): the model gives %r, rustc says %r" % (x, bytes.fromhex(model[1:]).decode("utf-8", "replace"), text))
         if 0 <= x < 8:         # readelf's rendering of PF_R = 4, PF_W = 2, PF_X = 1
             want = ("R" if x & 4 else " ") + ("W" if x & 2 else " ") + ("E" if x & 1 else " ")
             return None if text == want else "p_flags_to_string(%d) = %r, the gABI flag bits read %r" % (x, text, want)
